@@ -558,6 +558,12 @@ def r10_paged_entities_are_gathered(ctx, rep):
     c09.r7_pageable_entities_get_pages(ctx, rep)
 
 
+def r11_inherited_bindings_are_copies(ctx, rep):
+    """an inherited binding is re-parented, so its anchor lies on the page that shows it (shared with C07.R9)"""
+    from . import c07
+    c07.r9_inherited_bindings_are_copies(ctx, rep)
+
+
 RULES = [
     RuleSpec("C10.R5", r5_no_transformation_after_uniqueness, "no lossy transformation after the identifier was made unique", floor=2),
     RuleSpec("C10.R1", r1_counter_key, "collision key at least as coarse as the stem; injective symbol table", floor=2),
@@ -569,4 +575,5 @@ RULES = [
     RuleSpec("C10.R8", r8_template_ids_are_anchors, "element ids are the unique anchors the links use (shared with C09.R2/R8)", floor=20),
     RuleSpec("C10.R9", r9_source_copies_cover_file_pages, "source copies are made for every file that has a file page", floor=1),
     RuleSpec("C10.R10", r10_paged_entities_are_gathered, "entities with a page URL are gathered into a paged list (shared with C09.R7)", floor=5),
+    RuleSpec("C10.R11", r11_inherited_bindings_are_copies, "an inherited binding is re-parented, so its anchor lies on the page that shows it (shared with C07.R9)", floor=1),
 ]
